@@ -25,6 +25,9 @@ type EntryContext struct {
 	startTime uint64
 	// the rt of this transaction
 	rt uint64
+	// statSkipped is set when an internal panic let the request through before
+	// any StatSlot was notified: such an entry must not be completed on exit.
+	statSkipped bool
 
 	Resource *ResourceWrapper
 	StatNode StatNode
@@ -120,6 +123,7 @@ func (ctx *EntryContext) Reset() {
 	ctx.err = nil
 	ctx.startTime = 0
 	ctx.rt = 0
+	ctx.statSkipped = false
 	ctx.Resource = nil
 	ctx.StatNode = nil
 	ctx.Input.reset()
